@@ -265,6 +265,8 @@ META = (META[0] + ' ENGAGE (optional from optional: neither side is dereferenced
 
 META = (META[0] + ' L2d (a single-slot owner does not destroy its object twice on one path without constructing in between).', META[1])
 
+META = (META[0] + ' FOREIGNSIZE (a raw size store through another object or an alias is preceded by a destroying call on that object).', META[1])
+
 
 def run(chk, tier):
     db = D.load("checks")
@@ -296,6 +298,8 @@ def run(chk, tier):
                 nfun += 1
             rule_of_five(chk, db, rq)
     trivreq_rule(chk)
+    from ..rules import extra8 as _X8
+    _X8.foreign_size_area(chk, D.load('plain'), ['_vector/', '_inplace_vector/'])      # FOREIGNSIZE (zero expected on the library)
     # ENGAGE (shared with C07): an optional built or assigned from another optional dereferences either side only where it
     # was tested to hold a value -- assigning through `**this` on disengaged storage starts no lifetime
     from . import c07 as _c07
